@@ -16,6 +16,7 @@
 -/
 import Synphot.Lemmas.FFT
 import Synphot.Lemmas.TranscReal
+import Synphot.Lemmas.C20x
 import Mathlib.Algebra.Order.Floor.Semiring
 import Mathlib.Algebra.Order.Field.Rat
 
@@ -450,5 +451,364 @@ example : ∃ bp : ℝ → ℝ, (∀ k < 3, 0 ≤ bp (1000 + (k : ℝ) * 4)) ∧
   ⟨fun x => |x - 1000|, fun k _ => abs_nonneg _, ⟨0, by norm_num, by simp⟩, ⟨1, by norm_num, by simp⟩⟩
 
 example : rescale [(0 : ℚ), 1, 3] 6 = .ok [0, 2, 6] := by decide +kernel
+
+/-! ## deepening (round 6) -/
+
+/-! ### (a) what the full-term reconstruction is for ANY curve: the input rescaled to `[0, peak]` -/
+
+/-- With every term kept, a bandpass sampled on a regular ascending grid (`n ≥ 2` points, any step `Δ > 0`,
+any simplified-grid length `N ≥ n`), with sampled minimum `lo` and peak `M ≠ lo` — no sign or zero-minimum
+assumption — is reconstructed as the affine image `(y − lo)·M/(M − lo)` of its samples (the last sample
+repeated on the `N − n` extra points). -/
+theorem full_terms_affine {T : Transc ℝ} (hT : IsRealTrig T) (bp : ℝ → ℝ) (n : ℕ) (hn : 2 ≤ n) (a : ℝ) {d : ℝ}
+    (hd : 0 < d) (N : ℕ) (hN : n ≤ N) (nTerms : ℕ) (hfull : N ≤ nTerms) (lo M : ℝ)
+    (hlo : listMin ((simplifiedWavelength n a d).map bp) = .ok lo)
+    (hM : listMax ((simplifiedWavelength n a d).map bp) = .ok M) (hne : M ≠ lo) :
+    ∃ r, filterToFft T bp (simplifiedWavelength n a d) N nTerms = .ok r ∧
+      r.n = n ∧ r.lam0 = a ∧ r.delta = d ∧ r.trMax = M ∧
+      filterFromFft T N r.lam0 r.delta r.trMax r.fft = .ok (simplifiedWavelength N a d,
+        (List.range N).map (fun k => (bp (a + ((min k (n - 1) : ℕ) : ℝ) * d) - lo) * M / (M - lo))) := by
+  have hN0 : N ≠ 0 := by omega
+  set ti : List ℝ := (List.range N).map (fun k => bp (a + ((min k (n - 1) : ℕ) : ℝ) * d)) with hti
+  have hlen : ti.length = N := by simp [hti]
+  have hr := filterToFft_eq (T := T) (bp := bp) (nTerms := nTerms) (listMin_sw n (by omega) a hd)
+    (median_diffs_sw n hn a d hd.ne') hM hN0
+  rw [interp_on_sw n (by omega) a hd bp N, ← hti] at hr
+  have hinv : invDftRe T N (fftTrunc T ti nTerms) = ti := by
+    have := invDftRe_fft hT ti (by intro h; rw [h] at hlen; simp at hlen; omega) nTerms (by omega)
+    rwa [hlen] at this
+  have hmem := C20x.mem_interp_iff bp n (by omega) a d N hN
+  have hmin : listMin ti = .ok lo := by rw [C20x.listMin_congr_mem hmem]; exact hlo
+  have hmax : listMax ti = .ok M := by rw [C20x.listMax_congr_mem hmem]; exact hM
+  refine ⟨_, hr, by simp, rfl, rfl, rfl, ?_⟩
+  show filterFromFft T N a d M (fftTrunc T ti nTerms) = _
+  rw [filterFromFft_eq T hN0 a hd.ne', hinv, rescale_eq_ok hmin hmax hne, hti, List.map_map]
+  rfl
+
+/-- … hence the full-term reconstruction returns the input itself at every grid point IFF the sampled
+minimum is exactly zero ("zero minimum" in the property's exact-inverse claim is necessary, not only
+sufficient) -/
+theorem exact_inverse_iff_min_zero {T : Transc ℝ} (hT : IsRealTrig T) (bp : ℝ → ℝ) (n : ℕ) (hn : 2 ≤ n) (a : ℝ)
+    {d : ℝ} (hd : 0 < d) (N : ℕ) (hN : n ≤ N) (nTerms : ℕ) (hfull : N ≤ nTerms) (lo M : ℝ)
+    (hlo : listMin ((simplifiedWavelength n a d).map bp) = .ok lo)
+    (hM : listMax ((simplifiedWavelength n a d).map bp) = .ok M) (hne : M ≠ lo) :
+    ∃ r tab, filterToFft T bp (simplifiedWavelength n a d) N nTerms = .ok r ∧
+      filterFromFft T N r.lam0 r.delta r.trMax r.fft = .ok tab ∧
+      ((∀ k < n, tab.2.getD k 0 = bp (a + (k : ℝ) * d)) ↔ lo = 0) := by
+  obtain ⟨r, hr, _, _, _, _, hfrom⟩ := full_terms_affine hT bp n hn a hd N hN nTerms hfull lo M hlo hM hne
+  refine ⟨r, _, hr, hfrom, ?_⟩
+  have hget : ∀ k < n, ((List.range N).map (fun k => (bp (a + ((min k (n - 1) : ℕ) : ℝ) * d) - lo) * M / (M - lo))).getD k 0
+      = (bp (a + (k : ℝ) * d) - lo) * M / (M - lo) := by
+    intro k hk
+    rw [List.getD_eq_getElem?_getD, List.getElem?_map, List.getElem?_range (by omega)]
+    simp only [Option.map_some, Option.getD_some]
+    rw [min_eq_left (by omega)]
+  have hsub : M - lo ≠ 0 := sub_ne_zero.mpr hne
+  constructor
+  · intro h
+    obtain ⟨x, hx, hxe⟩ := List.mem_map.1 (listMin_spec hlo).1
+    obtain ⟨k, hk, rfl⟩ := sw_mem.1 hx
+    have := h k hk
+    simp only [] at this
+    rw [hget k hk, hxe] at this
+    rw [← this]; simp
+  · intro h0 k hk
+    simp only []
+    rw [hget k hk, h0]
+    have hM0 : M ≠ 0 := by rw [h0] at hne; exact hne
+    rw [sub_zero, sub_zero, mul_div_assoc, div_self hM0, mul_one]
+
+/-! ### (b) the reported parameters on any strictly ascending (irregular) grid -/
+
+/-- for sampled wavelengths in strictly ascending order (any spacing), the call succeeds and reports the
+number of wavelengths, the FIRST wavelength, the median of the steps (all of them: none is zero) — a
+positive number between two of the steps — and the peak throughput -/
+theorem reported_params_ascending (T : Transc K) (bp : K → K) (w0 w1 : K) (ws : List K)
+    (hasc : (w0 :: w1 :: ws).Pairwise (· < ·)) {N : ℕ} (hN : N ≠ 0) (nTerms : ℕ) :
+    ∃ r, filterToFft T bp (w0 :: w1 :: ws) N nTerms = .ok r ∧
+      r.n = ws.length + 2 ∧ r.lam0 = w0 ∧ median (diffs (w0 :: w1 :: ws)) = .ok r.delta ∧ 0 < r.delta ∧
+      (∃ s ∈ diffs (w0 :: w1 :: ws), ∃ s' ∈ diffs (w0 :: w1 :: ws), s ≤ r.delta ∧ r.delta ≤ s') ∧
+      listMax ((w0 :: w1 :: ws).map bp) = .ok r.trMax ∧ r.fft.length = min nTerms N := by
+  have hpos := C20x.diffs_pos (w0 :: w1 :: ws) hasc
+  have hfil : (diffs (w0 :: w1 :: ws)).filter (fun d => d ≠ 0) = diffs (w0 :: w1 :: ws) := by
+    rw [List.filter_eq_self]; intro x hx; simpa using (hpos x hx).ne'
+  have hdne : diffs (w0 :: w1 :: ws) ≠ [] := by simp [diffs]
+  obtain ⟨dl, hdl⟩ := C20x.median_isOk _ hdne
+  obtain ⟨M, hM⟩ := listMax_isOk (l := (w0 :: w1 :: ws).map bp) (by simp)
+  have hmin := C20x.listMin_of_pairwise w0 (w1 :: ws) hasc
+  have hr := filterToFft_eq (T := T) (bp := bp) (nTerms := nTerms) hmin (by rw [hfil]; exact hdl) hM hN
+  exact ⟨_, hr, by simp, rfl, hdl, C20x.median_pos _ _ hdl hpos, median_between hdl, hM, by simp [fftTrunc_length]⟩
+
+/-! ### (c) the analytic model -/
+
+/-- the relation between the one-sided sine series and the truncated inverse transform: at the integer
+abscissae `j < N` the sine series `Σᵢ (Re cᵢ/N) sin(2π(i j/N + ¼)) − Σᵢ (Im cᵢ/N) sin(2π i j/N)` over the
+retained coefficients IS `Re ifft(c, n=N)[j]` (for at most `N` coefficients, which is all `filter_to_fft`
+ever returns) -/
+theorem sine_series_eq_ifft {T : Transc K} (hT : TrigLawful T) (N : ℕ) (params : List (K × K))
+    (hlen : params.length ≤ N) :
+    (List.range N).map (fun (j : ℕ) => analyticM T N params (j : K)) = invDftRe T N params := by
+  rw [invDftRe_eq T N params hlen]
+  apply List.map_congr_left
+  intro j _
+  exact analyticM_nat hT N params j
+
+/-- analytic model = tabulated reconstruction on the full grid, for the coefficients `filter_to_fft`
+returned with ANY number of requested terms `≥ 1` (the hypotheses of `analytic_eq_tabulated` on the
+coefficient list are discharged: `filter_to_fft` keeps `min(n_terms, N)` of them) -/
+theorem analytic_eq_tabulated_roundtrip {T : Transc K} (hT : TrigLawful T) {bp : K → K} {wl : List K}
+    {N nTerms : ℕ} {r : Params K} (h : filterToFft T bp wl N nTerms = .ok r) (hN : 2 ≤ N)
+    (hterms : 1 ≤ nTerms) (hd : 0 < r.delta) :
+    analyticEval T N r.lam0 r.delta r.trMax r.fft (simplifiedWavelength N r.lam0 r.delta) =
+      (filterFromFft T N r.lam0 r.delta r.trMax r.fft).map Prod.snd := by
+  have hl := (reported_params h).2.2.2.2
+  apply analytic_eq_tabulated hT hN r.lam0 hd r.trMax r.fft
+  · intro he; rw [he] at hl; simp at hl; omega
+  · rw [hl]; exact min_le_right _ _
+
+/-- the value the analytic model returns at a wavelength depends on that wavelength and on the span
+(`lo`, `hi`) of the series over the evaluated array, on nothing else: no state is carried between
+evaluations, and the array enters only through its minimum and maximum -/
+theorem analytic_pointwise (T : Transc K) {N : ℕ} (hN : 2 ≤ N) (lam0 : K) {delta : K} (hd : 0 < delta)
+    (trMax : K) (params : List (K × K)) (hne : params ≠ []) (xs ws : List K)
+    (h : analyticEval T N lam0 delta trMax params xs = .ok ws) :
+    ∃ lo hi, lo < hi ∧
+      listMin (xs.map fun x => analyticM T N params ((x - lam0) / delta)) = .ok lo ∧
+      listMax (xs.map fun x => analyticM T N params ((x - lam0) / delta)) = .ok hi ∧
+      ws = xs.map (fun x => (analyticM T N params ((x - lam0) / delta) - lo) * trMax / (hi - lo)) := by
+  rw [C20x.analyticEval_eq T hN lam0 hd trMax params hne xs] at h
+  obtain ⟨lo, hi, hlo, hhi, hlt, hw⟩ := rescale_ok_iff h
+  refine ⟨lo, hi, hlt, hlo, hhi, ?_⟩
+  rw [hw, List.map_map]; rfl
+
+/-- … in particular evaluating on the reversed array gives the reversed result (and fails exactly when the
+forward evaluation fails) -/
+theorem analytic_order (T : Transc K) {N : ℕ} (hN : 2 ≤ N) (lam0 : K) {delta : K} (hd : 0 < delta)
+    (trMax : K) (params : List (K × K)) (hne : params ≠ []) (xs : List K) :
+    analyticEval T N lam0 delta trMax params xs.reverse =
+      (analyticEval T N lam0 delta trMax params xs).map List.reverse := by
+  rw [C20x.analyticEval_eq T hN lam0 hd trMax params hne, C20x.analyticEval_eq T hN lam0 hd trMax params hne,
+    List.map_reverse, C20x.rescale_reverse]
+
+/-- whenever the analytic model returns numbers, on ANY set of wavelengths, they span exactly `[0, peak]` -/
+theorem analytic_span (T : Transc K) {N : ℕ} (hN : 2 ≤ N) (lam0 : K) {delta : K} (hd : 0 < delta)
+    {trMax : K} (hp : 0 ≤ trMax) (params : List (K × K)) (hne : params ≠ []) (xs ws : List K)
+    (h : analyticEval T N lam0 delta trMax params xs = .ok ws) :
+    listMin ws = .ok 0 ∧ listMax ws = .ok trMax ∧ ws.length = xs.length := by
+  rw [C20x.analyticEval_eq T hN lam0 hd trMax params hne xs] at h
+  obtain ⟨h1, h2, h3⟩ := rescale_span hp h
+  exact ⟨h1, h2, by simpa using h3⟩
+
+/-! ### (d) the span, as a dichotomy -/
+
+/-- for every valid grid, peak `≥ 0` and coefficient list: EITHER the truncated inverse transform is
+constant and `filter_from_fft` returns the all-NaN table (the recorded finding), OR it is not constant and
+the returned table is on `λ₀ + kΔ` with minimum exactly `0` and maximum exactly `tr_max` -/
+theorem span_dichotomy (T : Transc K) {N : ℕ} (hN : N ≠ 0) (lam0 : K) {delta : K} (hd : delta ≠ 0) {trMax : K}
+    (hp : 0 ≤ trMax) (params : List (K × K)) :
+    (listMax (invDftRe T N params) = listMin (invDftRe T N params) ∧
+      filterFromFft T N lam0 delta trMax params = .error .nan) ∨
+    (listMax (invDftRe T N params) ≠ listMin (invDftRe T N params) ∧
+      ∃ tab, filterFromFft T N lam0 delta trMax params = .ok tab ∧
+        tab.1 = simplifiedWavelength N lam0 delta ∧ listMin tab.2 = .ok 0 ∧ listMax tab.2 = .ok trMax ∧
+        tab.2.length = N) := by
+  by_cases hc : listMax (invDftRe T N params) = listMin (invDftRe T N params)
+  · exact Or.inl ⟨hc, (from_fft_nan_iff_constant T hN lam0 hd trMax params).mpr hc⟩
+  · right
+    refine ⟨hc, ?_⟩
+    have hne : invDftRe T N params ≠ [] := by
+      intro h; have := congrArg List.length h; rw [invDftRe_length] at this; exact hN (by simpa using this)
+    obtain ⟨lo, hlo⟩ := listMin_isOk hne
+    obtain ⟨hi, hhi⟩ := listMax_isOk hne
+    have he : hi ≠ lo := by
+      intro e; apply hc; rw [hlo, hhi, e]
+    have hfrom : filterFromFft T N lam0 delta trMax params =
+        .ok (simplifiedWavelength N lam0 delta, (invDftRe T N params).map fun x => (x - lo) * trMax / (hi - lo)) := by
+      rw [filterFromFft_eq T hN lam0 hd, rescale_eq_ok hlo hhi he]; rfl
+    obtain ⟨h1, h2, h3, h4⟩ := span_partial hp hfrom
+    exact ⟨_, hfrom, h1, h2, h3, h4⟩
+
+/-! ### non-vacuity of the round-6 theorems -/
+
+/-- `sin(πx)`, `cos(πx)` on the few arguments a two-point transform needs, with `π := 1` -/
+def parityT : Transc ℚ :=
+  ⟨fun _ => 0, fun _ => 0, fun _ => 0, fun _ => 0, fun _ => 0, fun _ => 0, fun _ => 0, fun _ _ => 0, 1,
+    fun x => if x = 1 / 2 then 1 else if x = 3 / 2 then -1 else 0,
+    fun x => if x = 0 then 1 else if x = 1 then -1 else 0⟩
+
+/-- a non-constant two-term reconstruction: a table with minimum 0 and maximum the peak -/
+example : filterFromFft parityT 2 1000 4 6 [(1, 0), (1, 0)] = .ok ([1000, 1004], [6, 0]) := by decide +kernel
+
+example : ∃ tab, filterFromFft parityT 2 1000 4 6 [(1, 0), (1, 0)] = .ok tab ∧
+    listMin tab.2 = .ok 0 ∧ listMax tab.2 = .ok 6 := by
+  rcases span_dichotomy parityT (N := 2) (by decide) 1000 (delta := 4) (by norm_num) (trMax := 6) (by norm_num)
+    [(1, 0), (1, 0)] with ⟨hc, _⟩ | ⟨_, tab, h, _, h1, h2, _⟩
+  · exfalso; revert hc; decide +kernel
+  · exact ⟨tab, h, h1, h2⟩
+
+/-- the analytic model on the same coefficients, evaluated on the grid and on the reversed grid -/
+theorem ex_analytic : analyticEval parityT 2 1000 4 6 [(1, 0), (1, 0)] [1000, 1004] = .ok [6, 0] := by
+  decide +kernel
+
+example : analyticEval parityT 2 1000 4 6 [(1, 0), (1, 0)] ([1000, 1004] : List ℚ).reverse = .ok [0, 6] := by
+  rw [analytic_order parityT (by decide) 1000 (by norm_num) 6 _ (by simp), ex_analytic]; rfl
+
+example : listMin ([6, 0] : List ℚ) = .ok 0 ∧ listMax ([6, 0] : List ℚ) = .ok 6 ∧ ([6, 0] : List ℚ).length = 2 :=
+  analytic_span parityT (N := 2) (by decide) 1000 (delta := 4) (by norm_num) (trMax := 6) (by norm_num)
+    [(1, 0), (1, 0)] (by simp) [1000, 1004] [6, 0] ex_analytic
+
+example : ∃ lo hi : ℚ, lo < hi ∧ ([6, 0] : List ℚ) = ([1000, 1004] : List ℚ).map
+    (fun x => (analyticM parityT 2 [(1, 0), (1, 0)] ((x - 1000) / 4) - lo) * 6 / (hi - lo)) := by
+  obtain ⟨lo, hi, h1, _, _, h4⟩ := analytic_pointwise parityT (N := 2) (by decide) 1000 (delta := 4) (by norm_num) 6
+    [(1, 0), (1, 0)] (by simp) [1000, 1004] [6, 0] ex_analytic
+  exact ⟨lo, hi, h1, h4⟩
+
+/-- an irregular ascending grid: steps 4, 6, 4 — median 4 -/
+example : ∃ r, filterToFft parityT (fun x => x - 1000) ([1000, 1004, 1010, 1014] : List ℚ) 5 3 = .ok r ∧
+    r.n = 4 ∧ r.lam0 = 1000 ∧ 0 < r.delta := by
+  obtain ⟨r, hr, h1, h2, _, h4, _⟩ := reported_params_ascending parityT (fun x => x - 1000) (1000 : ℚ) 1004
+    [1010, 1014] (by simp; norm_num) (N := 5) (by decide) 3
+  exact ⟨r, hr, h1, h2, h4⟩
+
+example : (List.range 4).map (fun (j : ℕ) => analyticM Transc.real 4 [(1, 0), (2, 1)] (j : ℝ)) =
+    invDftRe Transc.real 4 [(1, 0), (2, 1)] :=
+  sine_series_eq_ifft trigLawful_real 4 _ (by simp)
+
+example : ∃ r, filterToFft Transc.real (fun x => |x - 1000|) (simplifiedWavelength 3 1000 4) 4 2 = .ok r ∧
+    analyticEval Transc.real 4 r.lam0 r.delta r.trMax r.fft (simplifiedWavelength 4 r.lam0 r.delta) =
+      (filterFromFft Transc.real 4 r.lam0 r.delta r.trMax r.fft).map Prod.snd := by
+  obtain ⟨r, hr, _, _, hdl, _⟩ := reported_params_regular Transc.real (fun x => |x - 1000|) 3 (by norm_num) 1000
+    (d := 4) (by norm_num) (N := 4) (by norm_num) 2
+  exact ⟨r, hr, analytic_eq_tabulated_roundtrip trigLawful_real hr (by norm_num) (by norm_num)
+    (by rw [hdl]; norm_num)⟩
+
+/-- a curve with minimum 1 and peak 9 on three grid points satisfies the hypotheses of the affine statement
+(and is therefore NOT reproduced: its reconstruction has minimum 0) -/
+theorem ex_min : listMin ((simplifiedWavelength 3 (1000 : ℝ) 4).map fun x => |x - 1000| + 1) = .ok 1 := by
+  apply listMin_eq_of
+  · exact List.mem_map.2 ⟨1000 + ((0 : ℕ) : ℝ) * 4, sw_mem.2 ⟨0, by norm_num, rfl⟩, by simp⟩
+  · intro y hy
+    obtain ⟨x, _, rfl⟩ := List.mem_map.1 hy
+    have := abs_nonneg (x - 1000)
+    show (1 : ℝ) ≤ |x - 1000| + 1
+    linarith
+
+theorem ex_max : listMax ((simplifiedWavelength 3 (1000 : ℝ) 4).map fun x => |x - 1000| + 1) = .ok 9 := by
+  apply listMax_eq_of
+  · exact List.mem_map.2 ⟨1000 + ((2 : ℕ) : ℝ) * 4, sw_mem.2 ⟨2, by norm_num, rfl⟩, by norm_num⟩
+  · intro y hy
+    obtain ⟨x, hx, rfl⟩ := List.mem_map.1 hy
+    obtain ⟨k, hk, rfl⟩ := sw_mem.1 hx
+    interval_cases k <;> norm_num
+
+example : ∃ r, filterToFft Transc.real (fun x => |x - 1000| + 1) (simplifiedWavelength 3 1000 4) 4 4 = .ok r ∧
+    r.trMax = 9 ∧ filterFromFft Transc.real 4 r.lam0 r.delta r.trMax r.fft = .ok (simplifiedWavelength 4 1000 4,
+      (List.range 4).map (fun k => ((|(1000 + ((min k (3 - 1) : ℕ) : ℝ) * 4) - 1000| + 1) - 1) * 9 / (9 - 1))) := by
+  obtain ⟨r, hr, _, _, _, h4, h5⟩ := full_terms_affine isRealTrig_real (fun x => |x - 1000| + 1) 3 (by norm_num) 1000
+    (d := 4) (by norm_num) 4 (by norm_num) 4 (by norm_num) 1 9 ex_min ex_max (by norm_num)
+  exact ⟨r, hr, h4, h5⟩
+
+example : ∃ r tab, filterToFft Transc.real (fun x => |x - 1000| + 1) (simplifiedWavelength 3 1000 4) 4 4 = .ok r ∧
+    filterFromFft Transc.real 4 r.lam0 r.delta r.trMax r.fft = .ok tab ∧
+    ¬ (∀ k < 3, tab.2.getD k 0 = (fun x => |x - 1000| + 1) (1000 + (k : ℝ) * 4)) := by
+  obtain ⟨r, tab, hr, hf, hiff⟩ := exact_inverse_iff_min_zero isRealTrig_real (fun x => |x - 1000| + 1) 3 (by norm_num)
+    1000 (d := 4) (by norm_num) 4 (by norm_num) 4 (by norm_num) 1 9 ex_min ex_max (by norm_num)
+  exact ⟨r, tab, hr, hf, fun h => absurd (hiff.mp h) (by norm_num)⟩
+
+/-! ### where the constant case lies with two retained terms -/
+
+/-- the entries of a two-term reconstruction -/
+theorem two_terms_entries {T : Transc ℝ} (hT : IsRealTrig T) (N : ℕ) (hN : 2 ≤ N) (c0 c1 : ℝ × ℝ) :
+    invDftRe T N [c0, c1] = (List.range N).map fun (j : ℕ) =>
+      (c0.1 + c1.1 * Real.cos (2 * Real.pi * (j : ℝ) / N) - c1.2 * Real.sin (2 * Real.pi * (j : ℝ) / N)) / N := by
+  obtain ⟨hs, hc, hp⟩ := hT
+  rw [invDftRe_eq T N [c0, c1] (by simpa using hN)]
+  apply List.map_congr_left
+  intro j _
+  simp [rangeSum, List.range_succ, angle, hs, hc, hp]
+  ring
+
+/-- where the recorded finding lives when two terms are kept: on a grid of `N ≥ 3` points the two-term
+reconstruction is constant (all-NaN table) IFF the first harmonic vanishes, `c₁ = 0`; for every other
+coefficient pair the table spans `[0, peak]` (`span_dichotomy`) -/
+theorem two_terms_nan_iff {T : Transc ℝ} (hT : IsRealTrig T) {N : ℕ} (hN : 3 ≤ N) (lam0 : ℝ) {delta : ℝ}
+    (hd : delta ≠ 0) (trMax : ℝ) (c0 c1 : ℝ × ℝ) :
+    filterFromFft T N lam0 delta trMax [c0, c1] = .error .nan ↔ c1 = (0, 0) := by
+  have hN0 : N ≠ 0 := by omega
+  have hNr : (N : ℝ) ≠ 0 := by exact_mod_cast hN0
+  have hent := two_terms_entries hT N (by omega) c0 c1
+  set f : ℕ → ℝ := fun j =>
+    (c0.1 + c1.1 * Real.cos (2 * Real.pi * (j : ℝ) / N) - c1.2 * Real.sin (2 * Real.pi * (j : ℝ) / N)) / N with hf
+  have hne : invDftRe T N [c0, c1] ≠ [] := by
+    intro h; have := congrArg List.length h; rw [invDftRe_length] at this; exact hN0 (by simpa using this)
+  constructor
+  · intro h
+    rw [from_fft_nan_iff_constant T hN0 lam0 hd] at h
+    obtain ⟨lo, hlo⟩ := listMin_isOk hne
+    rw [hlo] at h
+    have hall : ∀ j < N, f j = lo := by
+      intro j hj
+      have hm : f j ∈ invDftRe T N [c0, c1] := by
+        rw [hent]; exact List.mem_map.2 ⟨j, List.mem_range.2 hj, rfl⟩
+      exact le_antisymm ((listMax_spec h).2 _ hm) ((listMin_spec hlo).2 _ hm)
+    have h0 := hall 0 (by omega)
+    have h1 := hall 1 (by omega)
+    have h2 := hall (N - 1) (by omega)
+    have hθ : (2 * Real.pi * ((N - 1 : ℕ) : ℝ) / N) = 2 * Real.pi - 2 * Real.pi * ((1 : ℕ) : ℝ) / N := by
+      rw [Nat.cast_sub (by omega)]; push_cast; field_simp
+    simp only [hf] at h0 h1 h2
+    rw [hθ, Real.cos_two_pi_sub, Real.sin_two_pi_sub] at h2
+    simp only [Nat.cast_zero, mul_zero, zero_div, Real.cos_zero, Real.sin_zero, mul_one, sub_zero] at h0
+    set θ := 2 * Real.pi * ((1 : ℕ) : ℝ) / N with hθd
+    have hθpos : 0 < θ := by rw [hθd]; positivity
+    have hθpi : θ < Real.pi := by
+      rw [hθd, div_lt_iff₀ (by positivity)]
+      have : (3 : ℝ) ≤ N := by exact_mod_cast hN
+      push_cast
+      nlinarith [Real.pi_pos]
+    have hsin : 0 < Real.sin θ := Real.sin_pos_of_pos_of_lt_pi hθpos hθpi
+    have hcos : Real.cos θ ≠ 1 := by
+      intro hc1
+      have := Real.sin_sq_add_cos_sq θ
+      rw [hc1] at this
+      nlinarith
+    have e1 : c1.1 * Real.cos θ - c1.2 * Real.sin θ = c1.1 := by
+      have := h1.trans h0.symm
+      field_simp at this
+      linarith
+    have e2 : c1.1 * Real.cos θ + c1.2 * Real.sin θ = c1.1 := by
+      have := h2.trans h0.symm
+      field_simp at this
+      linarith
+    have hb : c1.2 = 0 := by
+      have : c1.2 * Real.sin θ = 0 := by linarith
+      rcases mul_eq_zero.mp this with h | h
+      · exact h
+      · exact absurd h hsin.ne'
+    have ha : c1.1 = 0 := by
+      have : c1.1 * (Real.cos θ - 1) = 0 := by rw [hb] at e1; linarith
+      rcases mul_eq_zero.mp this with h | h
+      · exact h
+      · exact absurd (sub_eq_zero.mp h) hcos
+    exact Prod.ext ha hb
+  · intro h
+    rw [filterFromFft_eq T hN0 lam0 hd]
+    have : rescale (invDftRe T N [c0, c1]) trMax = .error .nan := by
+      apply rescale_const_nan hne
+      intro x hx y hy
+      rw [hent] at hx hy
+      obtain ⟨j, _, rfl⟩ := List.mem_map.1 hx
+      obtain ⟨k, _, rfl⟩ := List.mem_map.1 hy
+      simp only [hf]; rw [h]; simp
+    rw [this]; rfl
+
+/-- a two-term coefficient list with a non-zero first harmonic on four points: a table, spanning `[0, 5]` -/
+example : ∃ tab, filterFromFft Transc.real 4 1000 2 5 [(3, 0), (1, 2)] = .ok tab ∧
+    listMin tab.2 = .ok 0 ∧ listMax tab.2 = .ok 5 := by
+  rcases span_dichotomy Transc.real (N := 4) (by decide) 1000 (delta := 2) (by norm_num) (trMax := 5) (by norm_num)
+    [(3, 0), (1, 2)] with ⟨_, hnan⟩ | ⟨_, tab, h, _, h1, h2, _⟩
+  · have := (two_terms_nan_iff isRealTrig_real (N := 4) (by norm_num) 1000 (delta := 2) (by norm_num) 5 (3, 0) (1, 2)).mp hnan
+    exact absurd (congrArg Prod.fst this) (by norm_num)
+  · exact ⟨tab, h, h1, h2⟩
 
 end Synphot.C20
